@@ -619,7 +619,7 @@ def amount_req(rng, doc):
     if h is None:
         return False
     name = rng.choice(["amount.worker.vcpu", "amount.worker.x", "amount.custom", "attr.custom", "v:amount.x", "vv:amount.x", "vv:amount.worker.vcpu", "amount", "amount.", "amount.1x", "Amount.Custom",
-                       "amount.a b", "amount." + "a" * 93, "amount." + "a" * 94, "", "amount.job.x", "amount.{{Param.Nope}}", "amount.x:y", "vv:ww:amount.x", "amount.x\n", "other.x", "amount.a.b_c.d9"])
+                       "amount.a b", "amount." + "a" * 93, "amount." + "a" * 94, "", "amount.job.x", "amount.jobslots", "amount.workers.x", "acme:amount.steps_2", "amount.tasks", "amount.Worker.x", "AMOUNT.JOB.CUSTOM", "vv:amount.Task.x", "amount.STEP.a", "amount.{{Param.Nope}}", "amount.x:y", "vv:ww:amount.x", "amount.x\n", "other.x", "amount.a.b_c.d9"])
     a = {"name": name}
     k = rng.random()
     if k < 0.5:
@@ -637,7 +637,7 @@ def attribute_req(rng, doc):
     h = ensure_host_req(rng, doc)
     if h is None:
         return False
-    name = rng.choice(["attr.worker.os.family", "attr.worker.cpu.arch", "ATTR.Worker.OS.Family", "attr.custom", "attr.worker.x", "amount.custom", "vv:attr.x", "attr", "attr.task.x", "attr.{{Param.Nope}}"])
+    name = rng.choice(["attr.worker.os.family", "attr.worker.cpu.arch", "ATTR.Worker.OS.Family", "attr.custom", "attr.worker.x", "amount.custom", "vv:attr.x", "attr", "attr.task.x", "attr.jobtype", "attr.stepwise.x", "vv:attr.workerpool", "attr.Task.x", "ATTR.STEP.Y", "vv:attr.Job.z", "attr.{{Param.Nope}}"])
     a = {"name": name}
     vals = rng.choice([["linux"], ["linux", "windows"], ["beos"], ["x86_64"], ["v1"], ["9x"], ["a-b_c"], ["a" * 100], ["a" * 101], [""], ["{{Param.Nope}}"], [], ["v"] * 50, ["v"] * 51, ["Linux"], ["a b"]])
     k = rng.random()
